@@ -639,6 +639,41 @@ fn contract_checks(rep: &mut Report, r: &mut Rng, rounds: u64) {
                 break;
             }
         }
+        // finish_progress (used by loose::Store::find_inner): first call with a small output, then the whole rest of
+        // the stream with room for exactly the rest of the content — every call ends the stream or makes progress
+        {
+            let mut d = flate2::Decompress::new(true);
+            let first_cap = *r.pick(&[0usize, 1, 64, 256]);
+            let mut out = vec![0u8; first_cap.min(data.len())];
+            let mut ended = false;
+            if let Ok(st) = d.decompress(&z, &mut out, flate2::FlushDecompress::None) {
+                ended = st == flate2::Status::StreamEnd;
+            }
+            // room for exactly the rest of the content
+            let first_out = d.total_out() as usize;
+            let mut rest_out = vec![0u8; data.len() - first_out];
+            let mut calls = 0;
+            while !ended {
+                calls += 1;
+                let (bi, bo) = (d.total_in(), d.total_out());
+                let st = d.decompress(&z[bi as usize..], &mut rest_out[bo as usize - first_out..], flate2::FlushDecompress::None);
+                let (ci, co) = ((d.total_in() - bi) as usize, (d.total_out() - bo) as usize);
+                match st {
+                    Ok(flate2::Status::StreamEnd) => ended = true,
+                    Ok(_) if ci != 0 || co != 0 => {}
+                    other => {
+                        bad += 1;
+                        rep.note(&format!("CONTRACT decompressor: finish_progress violated: {:?} without progress after {calls} calls (whole rest of the stream on offer, room for the rest of the content)", other.map_err(|e| e.to_string())));
+                        break;
+                    }
+                }
+                if calls > 100_000 {
+                    bad += 1;
+                    rep.note("CONTRACT decompressor: finish loop does not terminate");
+                    break;
+                }
+            }
+        }
         rep.bucket("contract:rounds");
     }
     if bad == 0 {
